@@ -26,14 +26,14 @@ def body(c):
     q = c.quick
     rnd = random.Random(c.seed)
     # 1. design level
-    L.mc(c, "Sequence", "2obj-bw2", L.K(Objs=[1, 2], BW=2, MaxStored=8, MaxVer=6 if q else 8, MaxRestarts=1, AssignEarly=False),
+    L.mc(c, "Sequence", "2obj-bw2", L.K(Objs=[1, 2], BW=2, MaxStored=8, MaxVer=6 if q else 8, MaxRestarts=1, MaxQueued=1, AssignEarly=False),
          INV, constraint="Bound", timeout=900)
-    L.mc(c, "Sequence", "2obj-bw1", L.K(Objs=[1, 2], BW=1, MaxStored=5, MaxVer=6 if q else 8, MaxRestarts=2, AssignEarly=False),
-         INV, constraint="Bound", timeout=900)
+    L.mc(c, "Sequence", "2obj-bw1", L.K(Objs=[1, 2], BW=1, MaxStored=5, MaxVer=6 if q else 8, MaxRestarts=2, MaxQueued=0 if q else 1, AssignEarly=False),
+         INV, constraint="Bound", timeout=900, allow_zero=("NextQueued", "Resume") if q else ())
     if not q:
-        L.mc(c, "Sequence", "3obj-bw2", L.K(Objs=[1, 2, 3], BW=2, MaxStored=8, MaxVer=6, MaxRestarts=1, AssignEarly=False),
-             INV, constraint="Bound", timeout=1200)
-    cx = L.expect_counterexample(c, "Sequence", "asis", L.K(Objs=[1, 2], BW=2, MaxStored=8, MaxVer=6, MaxRestarts=1, AssignEarly=True), "Unique")
+        L.mc(c, "Sequence", "3obj-bw2", L.K(Objs=[1, 2, 3], BW=2, MaxStored=8, MaxVer=6, MaxRestarts=1, MaxQueued=0, AssignEarly=False),
+             INV, constraint="Bound", timeout=1200, allow_zero=("NextQueued", "Resume"))
+    cx = L.expect_counterexample(c, "Sequence", "asis", L.K(Objs=[1, 2], BW=2, MaxStored=8, MaxVer=6, MaxRestarts=1, MaxQueued=0, AssignEarly=True), "Unique")
     c.cov["assign_early_counterexample_found"] = bool(cx.violation)
     if not cx.violation:
         raise vlib.Inconclusive("AssignEarly=TRUE no longer violates Unique in the model")
@@ -42,7 +42,7 @@ def body(c):
     plans = [("bw2", 2, 10 if q else 12, 1500 if q else 12000), ("bw1", 1, 9 if q else 11, 1500 if q else 12000)]
     for name, bw, hl, cap in plans:
         cases = L.gen(c, "SequenceGen", "%s-len%d" % (name, hl),
-                      L.K(Objs=[1, 2], BW=bw, MaxStored=1000, MaxVer=1000, MaxRestarts=1, AssignEarly=False, HistLen=hl, MinConflicts=0),
+                      L.K(Objs=[1, 2], BW=bw, MaxStored=1000, MaxVer=1000, MaxRestarts=1, MaxQueued=0, AssignEarly=False, HistLen=hl, MinConflicts=0, MinQueued=0),
                       invariants=("Emit", "Unique"), timeout=1200)
         c.cov.setdefault("generated", {})[name] = len(cases)
         if len(cases) > cap:
@@ -57,10 +57,25 @@ def body(c):
         keys |= set(short(h) for h in cases if any(s["res"] == "value" for s in h))
         for h in [h for h in cases if any(s["op"] == "nextCommit" and s["res"] == "conflict" for s in h)][:2]:
             c.sample(short(h))
+    # a second goroutine calls Next on an object whose Release / renewal is inside its transaction
+    # (Sequence.lock must make it wait); all behaviours of length 9 (thorough 10) with such a call
+    cases = L.gen(c, "SequenceGen", "queued-next",
+                  L.K(Objs=[1, 2], BW=2, MaxStored=1000, MaxVer=1000, MaxRestarts=1, MaxQueued=1, AssignEarly=False,
+                      HistLen=9 if q else 10, MinConflicts=0, MinQueued=1), invariants=("Emit", "Unique"), timeout=1200)
+    c.cov["generated"]["queued-next"] = len(cases)
+    cap = 400 if q else 4000
+    if len(cases) > cap:
+        cases = rnd.sample(cases, cap)
+    L.replay(c, "cmd/sm1seq", cases, ["-bw", "2"], "seq-queued-next", timeout=1500)
+    total += len(cases)
+    c.cov["behaviours_with_next_concurrent_to_a_call_of_the_same_object"] = len(cases)
+    keys |= set(short(h) for h in cases)
+    for h in [h for h in cases if any(s["op"] == "resume" and s["res"] == "value" for s in h)][:1]:
+        c.sample(short(h), limit=6)
     if not q:
         # longer behaviours by seeded simulation
         cases = L.gen(c, "SequenceGen", "sim-len18",
-                      L.K(Objs=[1, 2], BW=2, MaxStored=1000, MaxVer=1000, MaxRestarts=2, AssignEarly=False, HistLen=18, MinConflicts=1),
+                      L.K(Objs=[1, 2], BW=2, MaxStored=1000, MaxVer=1000, MaxRestarts=2, MaxQueued=1, AssignEarly=False, HistLen=18, MinConflicts=1, MinQueued=0),
                       invariants=("Emit", "Unique"), simulate=8000, depth=19, seed=c.seed, timeout=900)
         cases = list({json.dumps(h): h for h in cases}.values())
         L.replay(c, "cmd/sm1seq", cases, ["-bw", "2"], "seq-sim18", timeout=1500)
@@ -74,7 +89,9 @@ def body(c):
                      "sample containing a commit conflict); non-trivial = at least one number handed out; distinct = distinct step sequences")
     c.cov["exhaustive"] = False   # sequences are enumerated by TLC, replays above the caps are seeded samples
     c.assumptions += ["the Sequence objects belong to one process/DB instance; the crash part of C30 is covered by the Disk family",
-                      "a GetSequence that fails with ErrConflict yields no usable object"]
+                      "a GetSequence that fails with ErrConflict yields no usable object",
+                      "that a concurrent Next waits is observed as 'has not returned after 40 ms' (a correct tree can never return; a broken one is "
+                      "missed only if the goroutine is not scheduled for 40 ms)"]
 
 
 vlib.main("C30", "model_checking", body)
